@@ -30,6 +30,8 @@ func verifDeliveredInc() {}
 
 func verifYield(point int) {}
 
+func verifYieldNote(point int, note string) {}
+
 func verifAdopt(id int) {}
 
 func verifRetire() {}
